@@ -53,6 +53,29 @@ reg(
     "1e-17 < sigma_min/sigma_max < 1e-11 where rcond truncation is unpredictable (counted in evidence).",
 )
 
+reg(
+    "C06",
+    "offline trace checker (rules R1-R7 + livelock) over event logs of the real RejectionLoop driven by scripted solver/error components and by real solvers behind recording proxies",
+    "The real solve_adaptive_save_at / RejectionLoop / controllers run under jax.disable_jit with a recording Python while_loop. "
+    "Scripted components realise arbitrary accept/reject histories (random and hostile admissible-step profiles, I and PI "
+    "controllers with random admissible parameters, clip on/off, three eps values, checkpoints placed by a two-pass "
+    "construction at / within eps of / after / inside step ends); real solver configurations are sampled. Every event "
+    "(attempt, error estimate, controller call, interpolation, loop boundary, report) is checked against the trace "
+    "specification. Held on the histories run (about 1200 quick / 30000 thorough), counted per branch in the evidence.",
+    "Trusted: disable_jit preserves program order; the scripted solver follows the bookkeeping contract of real solvers. "
+    "Budget overruns of slow-but-progressing runs are inconclusive histories (counted), never violations.",
+)
+reg(
+    "C07",
+    "intercepted estimate_error_norm calls inside real adaptive runs recomputed from the previous mean with the documented formula (mpmath); counting proxy for cached vs re-linearised; dyadic base-scale rerun",
+    "Recording proxies capture every (previous, proposed, dt, atol, rtol) the loop hands to the estimator; the returned "
+    "acceptance quantity is recomputed independently (exact IWP transition, exact polynomial Jacobians reduced per "
+    "factorisation, local scale, dt^n/n!, selected norm, reference max(|u_prev|,|u_new|), power -1/(nu+1)) and must agree "
+    "to 1e-8 (+1e-13*condition of the residual). Direct calls with dt in [1e-5,1] and tolerances in [1e-10,1e-1] extend "
+    "the reach; a rerun with the base scale times 2^k must reproduce every value and the attempt count.",
+    "Trusted: pdv/refmodel/{sde,lin}.py. Calls whose residual is rounding noise (condition > 1e5) are not judged (counted).",
+)
+
 NOT_BUILT_REASON = "check under construction in this session; not yet registered"
 
 
